@@ -396,6 +396,8 @@ def gen(rnd, *, core=False, res_choices=(60, 60, 30, 15), subslot=True, alap=Non
                 t["start"] = m["start"]        # pinned exactly at the project start (also written ${projectstart})
             elif subslot and not core and res >= 10 and rnd.random() < 0.15:
                 t["start"] += timedelta(minutes=rnd.choice([res // 2, res // 3, 7 if res > 7 else 1]))   # a pin INSIDE a slot
+            if t.get("milestone") and not core and rnd.random() < 0.15:
+                t["end"] = t["start"] + timedelta(days=rnd.randint(1, 3))      # an explicit milestone pinned to TWO different dates: contradictory
         tasks.append(t)
     m["tasks"] = tasks
     # containers that ended up childless become leaves (milestones): the parser treats them so
